@@ -252,7 +252,7 @@ func cmdRx(args []string) int {
 			st.hist("tag:" + t)
 		}
 		hg := newHayGen(r.fork(uint64(i)+1000), c.re)
-		extra := append(hg.perLiteral(), hg.overlapHays()...)
+		extra := append(append(hg.perLiteral(), hg.overlapHays()...), hg.longHays()...)
 		for j := 0; j < *nhay+len(extra); j++ {
 			var h []byte
 			if j < *nhay {
